@@ -321,6 +321,20 @@ func (m *Machine) builtin(fr *Frame, b *ssa.Builtin, args []Value, c *ssa.CallCo
 		return acc
 	case "print", "println":
 		return nil
+	case "Add": // unsafe.Add(ptr, len)
+		d, ok := args[1].(*term.T)
+		if !ok || !d.IsConst() {
+			unsupported("unsafe.Add with a symbolic length")
+		}
+		switch p := args[0].(type) {
+		case *PtrV:
+			if p.IsNil() {
+				return &AddrV{Nil: true, Off: term.SignedVal(d)}
+			}
+			return &AddrV{Obj: p.Obj, Path: p.Path, Off: term.SignedVal(d)}
+		case *AddrV:
+			return &AddrV{Obj: p.Obj, Path: p.Path, Off: p.Off + term.SignedVal(d), Nil: p.Nil}
+		}
 	case "ssa:wrapnilchk":
 		p, ok := args[0].(*PtrV)
 		if ok && p.IsNil() {
